@@ -103,12 +103,27 @@ def native_bin():
     """Build (incrementally) and return the native oracle binary: real dust_dds code, dev profile."""
     global _native_built
     tdir = os.path.join(common.BUILD, "native")
+    src = os.path.join(common.VERIF, "native")
+    if common.REPO != "/repo":
+        # checks pointed at another tree (VERIF_REPO=<worktree>, used for seeded changes): build the oracle
+        # against that tree from a scratch copy of the oracle crate with the path dependency rewritten
+        import hashlib
+        import shutil
+        tag = hashlib.sha1(common.REPO.encode()).hexdigest()[:10]
+        tdir = os.path.join(common.BUILD, "native_" + tag)
+        src2 = os.path.join(common.BUILD, "native_src_" + tag)
+        if os.path.exists(src2):
+            shutil.rmtree(src2)
+        shutil.copytree(src, src2)
+        ct = open(os.path.join(src2, "Cargo.toml")).read().replace('"/repo/dds"', '"%s/dds"' % common.REPO)
+        open(os.path.join(src2, "Cargo.toml"), "w").write(ct)
+        src = src2
     binp = os.path.join(tdir, "debug", "verif_native")
     if not _native_built:
         env = common.base_env()
         env.pop("RUSTFLAGS", None)
         p = subprocess.run(["cargo", "build", "--offline", "--target-dir", tdir],
-                           cwd=os.path.join(common.VERIF, "native"), env=env,
+                           cwd=src, env=env,
                            stdout=subprocess.PIPE, stderr=subprocess.STDOUT, text=True)
         if p.returncode != 0:
             raise RuntimeError("native oracle build failed: " + p.stdout[-2000:])
